@@ -1584,7 +1584,15 @@ impl ElementRaw {
                     }
                 }
             }
-            ContentMode::Characters | ContentMode::Mixed => {}
+            ContentMode::Mixed => {
+                // the items of mixed content are never reordered, but the sub elements can have sortable content
+                for ec in &self.content {
+                    if let ElementContent::Element(elem) = ec {
+                        elem.0.write().sort(version);
+                    }
+                }
+            }
+            ContentMode::Characters => {}
         }
     }
 
